@@ -242,6 +242,25 @@ def deps (eq : Equation β) (t : Int) : List Cell :=
 def depsNoRes (eq : Equation β) (t : Int) : List Cell :=
   eq.rhs.reads t ++ eq.lagCells t
 
+/-- `depsNoRes` as (row, shift) incidences of the equation text: the right-hand side and the lag of the LHS transform -/
+def depNoResTokens (eq : Equation β) : List (Nat × Int) :=
+  eq.rhs.tokens ++ (match eq.tr.lagShift with | some s => [(eq.lhs, s)] | none => [])
+
+/-- `deps` as (row, shift) incidences: right-hand side, transform lag, residual -/
+def depTokens (eq : Equation β) : List (Nat × Int) :=
+  eq.depNoResTokens ++ (if eq.identity then [] else [(eq.res, 0)])
+
+/-- the rows a step of this equation can write: its LHS, and its residual unless it is an identity -/
+def writeRows (eq : Equation β) : List Nat :=
+  eq.lhs :: (if eq.identity then [] else [eq.res])
+
+/-- static form of `selfOK`: the equation text does not read its own LHS at shift 0, and (non-identities) the residual is a
+row of its own, not read by the right-hand side or the transform lag at shift 0 -/
+def SelfOKText (eq : Equation β) : Prop :=
+  (eq.lhs, (0 : Int)) ∉ eq.depTokens ∧ (eq.identity = true ∨ ((eq.res, (0 : Int)) ∉ eq.depNoResTokens ∧ eq.res ≠ eq.lhs))
+
+instance (eq : Equation β) : Decidable eq.SelfOKText := by unfold SelfOKText; infer_instance
+
 end Equation
 
 /-- plan transforms (`CHOOSE_TRANSFORM_CLASS`) -/
@@ -435,6 +454,38 @@ def admissible (eqs : List (Equation β)) (plan : Plan) : List (Int × Nat) → 
 def admissibleFlags (eqs : List (Equation β)) (plan : Plan) : List (Int × Nat) → List Bool
   | [] => []
   | s :: rest => stepOK eqs plan s rest :: admissibleFlags eqs plan rest
+
+/-! ## Closed-form conditions on the model text under which the two execution orders are admissible -/
+
+/-- every equation passes `SelfOKText` -/
+def AllSelfOK (eqs : List (Equation β)) : Prop := ∀ eq ∈ eqs, eq.SelfOKText
+
+/-- different equations write different rows (distinct LHS names, distinct residual names, no LHS that is a residual) -/
+def DistinctWrites (eqs : List (Equation β)) : Prop :=
+  ∀ p ∈ eqs.zipIdx, ∀ q ∈ eqs.zipIdx, p.2 ≠ q.2 → ∀ r ∈ p.1.writeRows, r ∉ q.1.writeRows
+
+/-- **dates×equations**: whenever equation `i` reads, at shift `k`, a row that equation `j` writes, and both the reading
+column and the column read lie in the simulated columns, then `k < 0` (a lag), or `k = 0` and `j` is not later than `i`
+(same period: only earlier equations — `j = i` is the equation's own residual).  In words: the model is sequentialised and
+its leads refer only to input cells. -/
+def DatesEquationsCond (eqs : List (Equation β)) (cols : List Int) : Prop :=
+  ∀ p ∈ eqs.zipIdx, ∀ q ∈ eqs.zipIdx, ∀ tok ∈ p.1.depTokens, tok.1 ∈ q.1.writeRows →
+    ∀ t ∈ cols, t + tok.2 ∈ cols → (tok.2 < 0 ∨ (tok.2 = 0 ∧ q.2 ≤ p.2))
+
+/-- **equations×dates**: whenever equation `i` reads, at shift `k`, a row that equation `j` writes, with both columns
+simulated, then `j` is an earlier equation (any shift, leads included), or `j = i` and `k ≤ 0` (own lags; `k = 0` is the own
+residual).  In particular no equation may read — at any shift landing inside the span, lags included — a row written by a
+LATER equation. -/
+def EquationsDatesCond (eqs : List (Equation β)) (cols : List Int) : Prop :=
+  ∀ p ∈ eqs.zipIdx, ∀ q ∈ eqs.zipIdx, ∀ tok ∈ p.1.depTokens, tok.1 ∈ q.1.writeRows →
+    ∀ t ∈ cols, t + tok.2 ∈ cols → (q.2 < p.2 ∨ (q.2 = p.2 ∧ tok.2 ≤ 0))
+
+instance (eqs : List (Equation β)) : Decidable (AllSelfOK eqs) := by unfold AllSelfOK; infer_instance
+instance (eqs : List (Equation β)) : Decidable (DistinctWrites eqs) := by unfold DistinctWrites; infer_instance
+instance (eqs : List (Equation β)) (cols : List Int) : Decidable (DatesEquationsCond eqs cols) := by
+  unfold DatesEquationsCond; infer_instance
+instance (eqs : List (Equation β)) (cols : List Int) : Decidable (EquationsDatesCond eqs cols) := by
+  unfold EquationsDatesCond; infer_instance
 
 end
 
